@@ -7,7 +7,7 @@ func (r Ring) DivFloorByLastModulusNTT(p0, buff, p1 Poly) {
 
 	level := r.level
 
-	r.SubRings[level].INTTLazy(p0.Coeffs[level], buff.Coeffs[0])
+	r.SubRings[level].INTT(p0.Coeffs[level], buff.Coeffs[0])
 
 	for i, s := range r.SubRings[:level] {
 		s.NTTLazy(buff.Coeffs[0], buff.Coeffs[1])
